@@ -14,6 +14,7 @@ mod obs;
 mod ops;
 mod profiles;
 mod rng;
+mod simfs;
 mod world;
 
 use std::any::Any;
@@ -95,6 +96,7 @@ fn smoke() {
 fn main() {
     install_panic_hook();
     engine::install();
+    simfs::install();
     let args: Vec<String> = std::env::args().collect();
     match args.get(1).map(|s| s.as_str()) {
         Some("smoke") => smoke(),
@@ -383,6 +385,7 @@ fn main() {
                     bad_permille: 60,
                     load_fault_permille: 300,
                     abuse_permille: 30,
+                    io_fault_permille: 0,
                 };
                 let cfg = hist::HistCfg {
                     seed,
